@@ -3,7 +3,7 @@ from props import _auto
 
 LEAN_MODULES = _auto.lean_modules("C10")
 VARIANTS = ['default']
-RULE = 'HKDF L in {0,1,H-1,H,H+1,..,255H,255H+1}; PBKDF2 x PRF x c x dkLen across block boundaries; scrypt log2N 1..=10 (quick <=6), r 1..=8, p 1..=4, dkLen 1..=130; non-trivial = non-empty inputs; distinct = distinct case lines'
+RULE = 'HKDF L in {0,1,H-1,H,H+1,..,255H,255H+1} x PRK length in {0,1,H-1 (refused), H,H+1,2H,B,B+1}; PBKDF2 x PRF x c x dkLen across block boundaries; scrypt log2N 1..=10 (quick <=6), r 1..=8, p 1..=4, dkLen 1..=130; non-trivial = non-empty inputs; distinct = distinct case lines'
 TRUSTED = ["hand-written Lean models (lean/CxVerif/Impl, Spec) tied to the code by the correspondence run and by tables re-extracted from /repo/src"]
 ASSUMPTIONS = ["scrypt: log_n <= 32 (`integerify` reads 32 bits; larger N needs >= 3 TiB of memory — see DESIGN 14.2/known findings), 128*r*N < 2^64, password/salt lengths < 2^61; PBKDF2/HKDF: PRF input lengths within the hash's limits"]
 gen = _auto.make_gen("C10")
